@@ -4,6 +4,7 @@ import (
 	"crypto/sha256"
 	"errors"
 	"fmt"
+	"os"
 	"sort"
 	"strings"
 
@@ -59,6 +60,7 @@ type htlcTrack struct {
 	lastPreimage [32]byte
 	lastEvent    int
 	lastHeight   uint32
+	lastCancel   bool
 	lastSeen     bool
 }
 
@@ -460,6 +462,9 @@ func (o *oracleState) Check(s *Sim, ev *Event, obs *Obs) {
 			} else {
 				r.Count("probe_notify_returned_error")
 				r.Logf("    note: NotifyExitHopHtlc returned error: %v", v.Err)
+				if os.Getenv("VERIF_C15_DEBUG_ERR") != "" {
+					fail("debug-notify-error", "NotifyExitHopHtlc returned error: %v", v.Err)
+				}
 			}
 		}
 		var prevH *HtlcProj
@@ -504,7 +509,7 @@ func (o *oracleState) Check(s *Sim, ev *Event, obs *Obs) {
 			}
 			r.Count("replays_of_recorded_htlc")
 		case prevH == nil && single && t.lastEvent == ev.No-1 && o.lastChange < ev.No-1 &&
-			t.lastHeight == c.Height && t.lastClass != "error" && v.Class != "error" && ev.Fault == "":
+			t.lastHeight == c.Height && t.lastCancel == c.CancelSet && t.lastClass != "error" && v.Class != "error" && ev.Fault == "":
 			// Same HTLC, same height, nothing happened in between, and it
 			// was not recorded the first time: same answer.
 			if v.Class != t.lastClass || (v.Class == "settle" && [32]byte(v.Preimage) != t.lastPreimage) {
@@ -512,7 +517,7 @@ func (o *oracleState) Check(s *Sim, ev *Event, obs *Obs) {
 			}
 			r.Count("replays_immediate_of_refused_htlc")
 		}
-		t.lastClass, t.lastPreimage, t.lastEvent, t.lastHeight = v.Class, v.Preimage, ev.No, c.Height
+		t.lastClass, t.lastPreimage, t.lastEvent, t.lastHeight, t.lastCancel = v.Class, v.Preimage, ev.No, c.Height, c.CancelSet
 	}
 
 	// ---- no HTLC both settled and canceled ------------------------------
